@@ -14,6 +14,7 @@ import (
 	"sync/atomic"
 	"time"
 
+	"github.com/paulmach/orb"
 	"github.com/paulmach/osm"
 	"github.com/paulmach/osm/annotate"
 
@@ -80,8 +81,10 @@ type c14Graph struct {
 	hist     map[osm.RelationID]osm.Relations
 	adj      map[osm.RelationID][]osm.RelationID // distinct relation-typed refs over all versions
 	nHist    int
-	cyclic   bool // some relation with history reaches itself
-	relSlots int  // relation-typed member slots over all versions
+	cyclic   bool   // some relation with history reaches itself
+	relSlots int    // relation-typed member slots over all versions
+	linear   bool   // every relation has at most one relation-typed member slot: a chain / "rho"
+	label    string // stable key of a generated family member whose text would be too long
 	reachM   map[osm.RelationID]map[osm.RelationID]bool
 }
 
@@ -89,6 +92,7 @@ func (g *c14Graph) finish() {
 	g.hist = make(map[osm.RelationID]osm.Relations, len(g.nodes))
 	g.adj = make(map[osm.RelationID][]osm.RelationID, len(g.nodes))
 	var sb strings.Builder
+	notLinear := false
 	sb.WriteByte('{')
 	for i, nd := range g.nodes {
 		if i > 0 {
@@ -103,6 +107,7 @@ func (g *c14Graph) finish() {
 		g.nHist++
 		rels := make(osm.Relations, len(nd.versions))
 		seen := map[osm.RelationID]bool{}
+		nodeSlots := 0
 		for v, ms := range nd.versions {
 			if v > 0 {
 				sb.WriteByte('|')
@@ -114,6 +119,7 @@ func (g *c14Graph) finish() {
 				switch m.Type {
 				case osm.TypeRelation:
 					g.relSlots++
+					nodeSlots++
 					rid := osm.RelationID(m.Ref)
 					if !seen[rid] {
 						seen[rid] = true
@@ -125,6 +131,12 @@ func (g *c14Graph) finish() {
 					sb.WriteByte('n')
 				}
 				sb.WriteString(strconv.FormatInt(m.Ref, 10))
+				if m.Version != 0 || m.ChangesetID != 0 || m.Orientation != 0 || m.Lat != 0 || m.Lon != 0 {
+					sb.WriteByte('+') // member carries annotation fields; they are not part of the graph
+				}
+			}
+			if nodeSlots > 1 {
+				notLinear = true
 			}
 			rels[v] = &osm.Relation{ID: nd.id, Version: v + 1, Visible: true, Members: ms}
 		}
@@ -134,6 +146,7 @@ func (g *c14Graph) finish() {
 	g.desc = sb.String()
 	g.reachM = map[osm.RelationID]map[osm.RelationID]bool{}
 	g.small = g.nHist <= 4 && g.relSlots <= 16
+	g.linear = !notLinear
 	for id := range g.hist {
 		if g.reach(id)[id] {
 			g.cyclic = true
@@ -144,6 +157,9 @@ func (g *c14Graph) finish() {
 // key is the graph part of a violation key: the canonical text for small graphs, a hash of it
 // for bigger ones.
 func (g *c14Graph) key() string {
+	if g.label != "" {
+		return g.label
+	}
 	if len(g.desc) <= 160 {
 		return g.desc
 	}
@@ -199,6 +215,17 @@ func (g *c14Graph) scope(req []osm.RelationID) (map[osm.RelationID]bool, bool) {
 	return sc, true
 }
 
+// c14Decorate fills the member fields that annotation of a parent leaves behind (version,
+// changeset, orientation, location) and a role. None of them is part of the reference graph.
+func c14Decorate(m osm.Member, k uint64) osm.Member {
+	m.Version = int(k%7) + 1
+	m.ChangesetID = osm.ChangesetID(1000 + k%900)
+	m.Orientation = []orb.Orientation{orb.CW, orb.CCW, 0}[k%3]
+	m.Lat, m.Lon = float64(k%170)-85+0.25, float64(k%350)-175+0.5
+	m.Role = []string{"", "outer", "inner", "subarea"}[k%4]
+	return m
+}
+
 func c14Rel(id osm.RelationID) osm.Member {
 	return osm.Member{Type: osm.TypeRelation, Ref: int64(id)}
 }
@@ -248,7 +275,8 @@ func c14Magnitude(r *gen.R) int64 {
 }
 
 // c14ExhGraph decodes enumerated graph number gi on n relations (ids 1..n). layout 0: one
-// version, members ascending; 1: one version, members descending; 2: one member per version
+// version, members ascending; 1: one version, members descending and carrying annotation fields (version, changeset,
+// orientation, location, role); 2: one member per version
 // (ascending), preceded by a version holding way and node members that carry the number of
 // every relation of the graph (they are never edges); 3: as 0 with the ids c14WideIDs instead
 // of 1..n.
@@ -284,6 +312,9 @@ func c14ExhGraph(n int, gi int64, layout int) *c14Graph {
 			for a, b := 0, len(ms)-1; a < b; a, b = a+1, b-1 {
 				ms[a], ms[b] = ms[b], ms[a]
 			}
+			for k := range ms {
+				ms[k] = c14Decorate(ms[k], uint64(i*5+k))
+			}
 			nd.versions = []osm.Members{ms}
 		default:
 			var noise osm.Members
@@ -297,6 +328,77 @@ func c14ExhGraph(n int, gi int64, layout int) *c14Graph {
 		}
 		g.nodes = append(g.nodes, nd)
 	}
+	g.finish()
+	return g
+}
+
+// c14DeepGraph builds member number v of the deep family (independent of VERIF_SEED): a chain
+// r0 -> r1 -> ... -> r(d-1) of single relation members, optionally closed by a reference from
+// the bottom back to the relation at depth `back` (back == d-1: self reference, back < 0: none,
+// i.e. a deep acyclic chain), optionally with a 3-ring hanging below the bottom. Depths straddle
+// 100, the capacity the library preallocates for its DFS path.
+func c14DeepGraph(v int) *c14Graph {
+	depths := []int{99, 100, 101, 102, 103, 104, 128, 150, 200, 257, 300}
+	d := depths[v%len(depths)]
+	kind := (v / len(depths)) % 8
+	back, ring := -1, false
+	switch kind {
+	case 0: // acyclic
+	case 1:
+		back = 0
+	case 2:
+		back = 1
+	case 3:
+		back = d - 1
+	case 4:
+		back = d - 2
+	case 5:
+		back = d / 2
+	case 6:
+		back = d - 100 // the cycle is entered exactly where the path slice is full
+		if back < 0 {
+			back = 2
+		}
+	case 7:
+		ring = true
+	}
+	wide := (v/(len(depths)*8))%2 == 1
+	deco := (v/(len(depths)*16))%2 == 1
+	idOf := func(i int) osm.RelationID {
+		if wide {
+			return osm.RelationID(int64(1)<<40 - 50 + int64(i)*3) // straddles 2^40
+		}
+		return osm.RelationID(10 + i)
+	}
+	n := d
+	if ring {
+		n = d + 3
+	}
+	g := &c14Graph{shape: "deep"}
+	for i := 0; i < n; i++ {
+		var ms osm.Members
+		next := -1
+		switch {
+		case i+1 < n:
+			next = i + 1
+		case ring:
+			next = d // bottom of the ring points back to its first relation
+		case back >= 0:
+			next = back
+		}
+		if i%3 == 0 {
+			ms = append(ms, osm.Member{Type: osm.TypeWay, Ref: int64(idOf((i + 1) % n))})
+		}
+		if next >= 0 {
+			m := c14Rel(idOf(next))
+			if deco {
+				m = c14Decorate(m, uint64(i))
+			}
+			ms = append(ms, m)
+		}
+		g.nodes = append(g.nodes, c14Node{id: idOf(i), versions: []osm.Members{ms}})
+	}
+	g.label = fmt.Sprintf("deep{depth=%d back=%d ring=%v wide=%v decorated=%v}", d, back, ring, wide, deco)
 	g.finish()
 	return g
 }
@@ -437,6 +539,7 @@ func c14RandGraph(r *gen.R, maxN int) *c14Graph {
 	}
 
 	g := &c14Graph{shape: shape}
+	decorated := r.Chance(0.4) // histories of previously annotated relations
 	for a := 0; a < n; a++ {
 		nv := r.Pick(1, 1, 2, 2, 3, 4)
 		vs := make([]osm.Members, nv)
@@ -451,6 +554,9 @@ func c14RandGraph(r *gen.R, maxN int) *c14Graph {
 				if v == v0 || r.Chance(again) {
 					m := c14Rel(ids[b])
 					m.Role = r.PickS("", "outer", "inner", "subarea")
+					if decorated && r.Chance(0.7) {
+						m = c14Decorate(m, r.Uint64())
+					}
 					vs[v] = append(vs[v], m)
 				}
 			}
@@ -639,6 +745,8 @@ type c14Scn struct {
 	alsoClose bool   // call Close after a cancellation as well
 	plan      int
 	ctxAware  bool
+
+	hardBudget bool // exhausting the datasource budget is a non-termination verdict (set by run)
 }
 
 func (s *c14Scn) String() string {
@@ -747,8 +855,15 @@ func (x *c14X) run(s *c14Scn) c14Out {
 	plan := c14Plans[s.plan]
 	ds := &c14DS{hist: g.hist, budget: c14BudgetBig, cancel: cancel, ctxAware: s.ctxAware, perturb: plan[0],
 		spin: uint64(len(g.desc))*2654435761 + uint64(s.j) + 88172645463325252}
-	if g.small {
+	switch {
+	case g.small:
 		ds.budget = c14BudgetSmall
+		s.hardBudget = true
+	case g.linear && len(s.req) <= 25:
+		// at most one relation member per relation: from any start the walk follows a single
+		// chain and must stop when it repeats, i.e. after <= relations+1 lookups per request
+		ds.budget = 50 * int64(len(g.nodes)+2)
+		s.hardBudget = true
 	}
 	st := &c14State{ds: ds}
 	var out c14Out
@@ -982,8 +1097,8 @@ func (x *c14X) settle(s *c14Scn, out *c14Out) {
 	if out.overBudget {
 		x.abort = true
 		x.res.Add("cases_cut_short_by_datasource_budget", 1)
-		if g.small {
-			x.violate("nonterm-budget", g, "more than %d history lookups in one iteration over %d relations: the walk does not terminate; %s", c14BudgetSmall, len(g.nodes), s)
+		if s.hardBudget {
+			x.violate("nonterm-budget", g, "more than %d history lookups in one iteration over %d relations (%d requested): the walk does not terminate; %s", out.dsCalls-1, len(g.nodes), len(s.req), s)
 		} else {
 			x.res.Inconc("datasource budget of %d lookups exhausted on graph %s %s", c14BudgetBig, g.key(), s)
 		}
@@ -1158,7 +1273,12 @@ func (x *c14X) sample(g *c14Graph, req []osm.RelationID, out c14Out) {
 	}
 	x.sampled = true
 	_, acyclic := g.scope(req)
-	x.res.Sample = map[string]any{"graph": g.desc, "shape": g.shape, "requested": c14IDs(req), "emitted": c14IDs(out.emitted),
+	x.res.Sample = map[string]any{"graph": func() string {
+		if g.label != "" {
+			return g.label
+		}
+		return g.desc
+	}(), "shape": g.shape, "requested": c14IDs(req), "emitted": c14IDs(out.emitted),
 		"datasource_calls": out.dsCalls, "acyclic_from_requests": acyclic}
 }
 
@@ -1204,6 +1324,30 @@ func c14Exec(c fw.Case) *fw.Result {
 			x.stopSweep(g, ids, salt, 12)
 			if alt := lists[(salt>>3)%uint64(len(lists))]; len(alt) > 0 && len(alt) < n {
 				x.stopSweep(g, alt, salt+1, 12)
+			}
+		}
+	case "deep":
+		for v := from; v < from+count; v++ {
+			g := c14DeepGraph(int(v))
+			res.Add("graphs_deep", 1)
+			res.SetMax("relations_per_graph", int64(len(g.nodes)))
+			ids := g.allIDs()
+			top, mid, bottom := ids[0], ids[len(ids)/2], ids[len(ids)-1]
+			plan := func(k int) int { return c14PlanFor(uint64(v)*17+uint64(k)) % 7 } // no sleeping plans: hundreds of lookups per run
+			for li, req := range [][]osm.RelationID{{top}, {top, bottom}, {bottom, top}, {mid, top, bottom}, {top, mid, bottom, ids[1]}} {
+				out := x.run(&c14Scn{g: g, req: req, plan: plan(li)})
+				if li == 0 {
+					x.sample(g, req, c14Out{emitted: out.emitted[:min(len(out.emitted), 6)], dsCalls: out.dsCalls})
+				}
+			}
+			// stops while the walker is deep inside its recursion
+			req := []osm.RelationID{top, bottom}
+			x.run(&c14Scn{g: g, req: req, stop: "close", j: 0, plan: plan(5)})
+			x.run(&c14Scn{g: g, req: req, stop: "close", j: 1, plan: plan(6)})
+			x.run(&c14Scn{g: g, req: req, stop: "cancel-nonext", j: 0, alsoClose: v%2 == 0, plan: plan(7)})
+			x.run(&c14Scn{g: g, req: req, stop: "cancel", j: 2, plan: plan(8)})
+			for _, k := range []int{50, 101, len(ids) - 1, len(ids) + 1} {
+				x.run(&c14Scn{g: g, req: req, stop: "dscancel", j: k, alsoClose: k%2 == 0, plan: plan(k)})
 			}
 		}
 	case "rand-full", "rand-stop":
@@ -1313,6 +1457,13 @@ func c14Cases(tier string, seed uint64) []fw.Case {
 			}
 		}
 	}
+	deep := func(members, batch int, variant string) {
+		for from := 0; from < members; from += batch {
+			cs = append(cs, fw.Case{Kind: "deep", Variant: variant, Seed: 0,
+				P: map[string]int64{"from": int64(from), "count": int64(batch), "procs": []int64{0, 2, 1, 4}[(from/batch)%4]}})
+		}
+	}
+	deep(11*8*4, 22, "") // 11 depths x 8 closings x plain/wide ids x plain/annotated members
 	all := []int{0, 1, 2, 3}
 	exh(1, 8, "", all)
 	exh(2, 32, "", all)
@@ -1320,6 +1471,7 @@ func c14Cases(tier string, seed uint64) []fw.Case {
 		exh(3, 256, "", all)
 		exh(4, 256, "", all)
 		rnd(10000, 50, "", "c14rand")
+		deep(11*8, 22, "race")
 		exh(2, 32, "race", []int{0})
 		exh(3, 256, "race", all)
 		rnd(1000, 50, "race", "c14race")
@@ -1339,6 +1491,8 @@ func init() {
 			"each iterated undisturbed for every ordered selection of its ids (all subsets, all orders, plus requests naming an id twice), and swept with Close / cancel / cancel-without-further-Next after every j=0..len+1 Next calls, " +
 			"cancel before creation, and cancel or failure inside every datasource call. Random part: PRNG graphs of 1..14 relations with histories (+<=3 ids without), 12 shapes (DAGs, chain, tree, island cycle, sparse/dense cyclic, ring, self-loops, complete), " +
 			"ids small, medium, up to 2^40 or of mixed magnitude within one graph (small, >2^31, >2^32, 2^40-1, 2^40, 2^40+k, 2^62+k, negative small and large, MinInt64+1; never 0), 1-4 versions with different members, node/way members whose refs equal relation ids, refs to relations without history; request lists: all / reversed / random orders, random subsets with unknown, history-less and repeated ids, every order of a 3-subset. " +
+			"Deep family (seed-independent): 352 chains of depth 99..300 (straddling the library's preallocated path capacity of 100), acyclic or closed at the bottom by a reference back to depth 0, 1, d-1, d-2, d/2, d-100 or by a 3-ring, plain / 2^40-straddling ids, plain / annotated members, with stops deep inside the recursion. " +
+			"Relation members carry annotation fields (Version, ChangesetID, Orientation, Lat/Lon, Role) in enumerated layout 1 and in 40% of the random graphs. " +
 			"Schedule perturbation (Gosched / spinning / 30us sleeps in the datasource or the consumer, GOMAXPROCS 1,2,4,default) never feeds a verdict. " +
 			"One evaluation = one iteration (scenario). A signature is (stop kind, acyclic-with-pairs | flat | cyclic as seen from the requests, size classes of scope / request list / emitted sequence, repeated or history-less ids requested, enumerated or random graph); " +
 			"it is listed once per case, so the histogram counts cases, not scenarios; iterations whose requests name no relation with a history are trivial.",
@@ -1348,7 +1502,7 @@ func init() {
 			"a relation 'has a history' when the datasource returns at least one version; an empty history with a nil error is not generated",
 			"emitting an unrequested relation is not asserted either way (only: no id without history, no duplicates)",
 			"after Close or cancellation Next may deliver ids that were already in flight; only 'Next returns false within a bounded number of calls' and 'the goroutine ends' are asserted, the count of late ids is recorded",
-			"non-termination by endless walking is decided by a logical budget: more than 30 000 history lookups in one iteration over a graph of at most 4 relations with history and 16 relation-typed member slots, which is 20 times what any walk that cuts cycles on its own path can need (bigger graphs: 60 000, inconclusive only, because re-walking cut relations can legitimately need many lookups on dense cyclic graphs); the rest of such a case is skipped",
+			"non-termination by endless walking is decided by a logical budget: more than 30 000 history lookups in one iteration over a graph of at most 4 relations with history and 16 relation-typed member slots, which is 20 times what any walk that cuts cycles on its own path can need, or more than 50*(relations+2) lookups over a graph in which no relation has more than one relation member slot (a walk follows one chain and must stop when it repeats) (bigger graphs: 60 000, inconclusive only, because re-walking cut relations can legitimately need many lookups on dense cyclic graphs); the rest of such a case is skipped",
 			"a datasource that fails with another error than NotFound is outside the property: those runs must still end and Close must return, and the emitted prefix must satisfy the sequence oracles, nothing else",
 			"Err() and CompletedIndex are read but never asserted; race reports are informational (RaceIsViolation=false); the one seen on the unchanged library is Next (order.go:88) reading o.err while the walker stores it (order.go:63) when a walk is cut short by cancellation or a datasource error",
 			"a crash of a case is a violation because the only expected crash causes are the runtime's own deadlock report (only possible where the in-process state check does not apply) and a stack overflow from an unbounded walk",
